@@ -63,6 +63,68 @@ def pin_container_tree_btree_insertIntoLeaf : List String := ["func (r *btree[K,
   "insertOne(p0.values[:int(p0.n)+1], v0, p2)",
   "p0.n++"]
 
+/-- `btree.overfill` in `container/tree`: signature and full statement list, locals renamed positionally -/
+def pin_container_tree_btree_overfill : List String := ["func (r *btree[K, V]) overfill(p0 *node[K, V], p1 K, p2 V, p3 *node[K, V])",
+  "for {",
+  "v0 := newAmalgam1(r.compare, &p0.keys, &p0.values, &p0.children, p1, p2, p3)",
+  "v1 := p0",
+  "v2 := &node[K, V]{}",
+  "v3 := p0.leaf()",
+  "v4 := v0.Len() / 2",
+  "v5 := v0.Key(v4)",
+  "v6 := v0.Value(v4)",
+  "v2.n = int8(v0.Len() - v4 - 1)",
+  "for v7 := 0; v7 < int(v2.n); v7++ {",
+  "v2.keys[v7] = v0.Key(v4 + 1 + v7)",
+  "v2.values[v7] = v0.Value(v4 + 1 + v7)",
+  "}",
+  "if !v3 {",
+  "for v8 := 0; v8 < int(v2.n)+1; v8++ {",
+  "v2.children[v8] = v0.Child(v4 + 1 + v8)",
+  "v2.children[v8].parent = v2",
+  "}",
+  "}",
+  "v1.n = int8(v4)",
+  "for v9 := int(v1.n) - 1; v9 >= 0; v9-- {",
+  "v1.keys[v9] = v0.Key(v9)",
+  "v1.values[v9] = v0.Value(v9)",
+  "}",
+  "if !v3 {",
+  "for v10 := int(v1.n); v10 >= 0; v10-- {",
+  "v1.children[v10] = v0.Child(v10)",
+  "v1.children[v10].parent = v1",
+  "}",
+  "}",
+  "xslices.Clear(v1.keys[int(v1.n):])",
+  "xslices.Clear(v1.values[int(v1.n):])",
+  "xslices.Clear(v1.children[int(v1.n)+1:])",
+  "if p0 == r.root {",
+  "v11 := &node[K, V]{}",
+  "v11.keys[0], v11.values[0] = v5, v6",
+  "v11.n = 1",
+  "v11.children[0] = v1",
+  "v1.parent = v11",
+  "v11.children[1] = v2",
+  "v2.parent = v11",
+  "r.root = v11",
+  "return",
+  "}",
+  "v12 := v1.parent",
+  "if !v12.full() {",
+  "v13 := xslices.Index(v12.children[:], v1)",
+  "insertOne(v12.keys[:int(v12.n)+1], v13, v5)",
+  "insertOne(v12.values[:int(v12.n)+1], v13, v6)",
+  "insertOne(v12.children[:int(v12.n)+2], v13+1, v2)",
+  "v2.parent = v12",
+  "v12.n++",
+  "return",
+  "}",
+  "p0 = v12",
+  "p1 = v5",
+  "p2 = v6",
+  "p3 = v2",
+  "}"]
+
 /-- `btree.searchNode` in `container/tree`: signature and full statement list, locals renamed positionally -/
 def pin_container_tree_btree_searchNode : List String := ["func (r *btree[K, V]) searchNode(p0 K, p1 *node[K, V]) (o0 int, o1 bool)",
   "for v0 := 0; v0 < int(p1.n); v0++ {",
@@ -98,6 +160,24 @@ def pin_container_tree_forwardIterator_Next : List String := ["func (r *forwardI
   "v2 := r.c.valueUnchecked()",
   "r.c.Next()",
   "return KVPair[K, V]{v1, v2}, true"]
+
+/-- `insertOne` in `container/tree`: signature and full statement list, locals renamed positionally -/
+def pin_container_tree_insertOne : List String := ["func insertOne[T0 any](p0 []T0, p1 int, p2 T0)",
+  "copy(p0[p1+1:], p0[p1:])",
+  "p0[p1] = p2"]
+
+/-- `newAmalgam1` in `container/tree`: signature and full statement list, locals renamed positionally -/
+def pin_container_tree_newAmalgam1 : List String := ["func newAmalgam1[T0 any, T1 any](p0 func(T0, T0) int, p1 *[maxKVs]T0, p2 *[maxKVs]T1, p3 *[branchFactor]*node[T0, T1], p4 T0, p5 T1, p6 *node[T0, T1]) amalgam1[T0, T1]",
+  "v0 := func() int { }()",
+  "func#0 {",
+  "for v1 := range *p1 {",
+  "if p0(p4, p1[v1]) < 0 {",
+  "return v1",
+  "}",
+  "}",
+  "return len(p1)",
+  "}",
+  "return amalgam1[T0, T1]{keys: p1, values: p2, children: p3, extraKey: p4, extraValue: p5, extraChild: p6, extraIdx: v0}"]
 
 /-- type `Bound` of `container/tree`: one line per field / method -/
 def pin_container_tree_type_Bound : List String := ["type Bound[K any] struct",
